@@ -521,8 +521,24 @@ class CMInfo:
         self._analyse_add()
         self.direct = {}
         self.nodes = {}
+        self.parametric = {}   # helper name -> parameter position (0-based, self excluded) used as  table[<param>]
         for name, f in self.cls.methods.items():
             self.direct[name], self.nodes[name] = self._direct(f)
+        # helpers of the form  def h(self, section, ...): ... self.<table>[section] ...  are attributed at their call sites
+        if self.parametric:
+            for name, f in self.cls.methods.items():
+                for n in walk_no_nested(f.node):
+                    if isinstance(n, ast.Call) and isinstance(n.func, ast.Attribute) and isinstance(n.func.value, ast.Name) \
+                            and n.func.value.id == "self" and n.func.attr in self.parametric:
+                        pos = self.parametric[n.func.attr]
+                        arg = n.args[pos] if pos < len(n.args) else None
+                        mem = self.member_of(arg) if arg is not None else None
+                        if mem is None and isinstance(arg, ast.Name) and name in self.parametric and \
+                                f.params()[1:][self.parametric[name]:self.parametric[name] + 1] == [arg.id]:
+                            continue  # parametric helper forwarding its own section parameter
+                        sec = mem if mem is not None else "ANY"
+                        self.direct[name].add(sec)
+                        self.nodes[name].append((sec, n))
 
     def mangled(self, attr):
         if attr.startswith("__") and not attr.endswith("__"):
@@ -620,6 +636,11 @@ class CMInfo:
                         if mem is not None:
                             secs.add(mem)
                             nodes.append((mem, p))
+                            continue
+                        params = f.params()[1:]
+                        if isinstance(p.slice, ast.Name) and p.slice.id in params and f is not self.add and not any(
+                                isinstance(x, ast.Name) and x.id == p.slice.id and isinstance(x.ctx, ast.Store) for x in ast.walk(f.node)):
+                            self.parametric[f.name] = params.index(p.slice.id)
                             continue
                     secs.add("ANY")
                     nodes.append(("ANY", n))
@@ -975,12 +996,17 @@ class CallGraph:
                 for nm in (names if names is not None else [None]):
                     fake = ast.Attribute(value=fn.args[0], attr=nm or "__unknown__", ctx=ast.Load())
                     if nm is not None:
+                        if self._is_cm_expr(fn.args[0], f):
+                            t = self.cm_cls.lookup(nm)
+                            if t is not None:
+                                out.append((t, True, n))
+                            continue
                         for callee, precise in self.resolve_method(fake, f, types):
                             out.append((callee, precise, n))
                     else:
                         # unknown name: any method of the receiver's class(es), else of every class (imprecise)
                         cs = [c for k, c in self.expr_types(fn.args[0], f, types) if k == "inst"]
-                        if isinstance(fn.args[0], ast.Name) and fn.args[0].id in self.cm_params(f):
+                        if self._is_cm_expr(fn.args[0], f):
                             cs = [self.cm_cls]
                         for c in (cs or list(self.m.classes.values())):
                             for mm in c.methods.values():
@@ -995,6 +1021,11 @@ class CallGraph:
                             out.append((init, True, n))
         return out
 
+    def _is_cm_expr(self, e, f):
+        if isinstance(e, ast.Name):
+            return e.id in self.cm_params(f)
+        return isinstance(e, ast.Attribute) and isinstance(e.value, ast.Name) and e.value.id == "self" and e.attr in self.cm_attrs(f.cls)
+
     def dynamic_names(self, f, e, depth=0):
         """possible string values of expression e (method name used with getattr) or None when not enumerable"""
         if depth > 4:
@@ -1003,6 +1034,30 @@ class CallGraph:
             return [e.value]
         if isinstance(e, ast.Name):
             defs = [n.value for n in walk_no_nested(f.node) if isinstance(n, ast.Assign) and any(isinstance(t, ast.Name) and t.id == e.id for t in n.targets)]
+            # loop variable over a constant table:  for a, b, name in self._TABLE / TABLE
+            for lp in walk_no_nested(f.node):
+                if isinstance(lp, (ast.For, ast.comprehension)):
+                    tg = lp.target
+                    pos = None
+                    if isinstance(tg, ast.Name) and tg.id == e.id:
+                        pos = -1
+                    elif isinstance(tg, ast.Tuple):
+                        for i, x in enumerate(tg.elts):
+                            if isinstance(x, ast.Name) and x.id == e.id:
+                                pos = i
+                    if pos is None:
+                        continue
+                    node = self._const_node(f, lp.iter)
+                    if not isinstance(node, (ast.Tuple, ast.List)):
+                        return None
+                    out = []
+                    for row in node.elts:
+                        cell = row if pos == -1 else (row.elts[pos] if isinstance(row, (ast.Tuple, ast.List)) and pos < len(row.elts) else None)
+                        if isinstance(cell, ast.Constant) and isinstance(cell.value, str):
+                            out.append(cell.value)
+                        else:
+                            return None
+                    return out
             if not defs:
                 tbl = f.module.assigns.get(e.id)
                 return self.dynamic_names(f, tbl, depth + 1) if tbl is not None else None
@@ -1039,6 +1094,16 @@ class CallGraph:
                     elif not (isinstance(x, ast.Constant) and x.value is None):
                         return None
                 return out
+        return None
+
+    def _const_node(self, f, tbl):
+        """ast of a class-level / module-level constant named by self.X / cls.X / Class.X / X"""
+        if isinstance(tbl, ast.Attribute) and isinstance(tbl.value, ast.Name) and tbl.value.id in ("self", "cls") and f.cls is not None:
+            return f.cls.lookup_attr(tbl.attr)
+        if isinstance(tbl, ast.Attribute) and isinstance(tbl.value, ast.Name) and tbl.value.id in self.m.classes:
+            return self.m.classes[tbl.value.id].lookup_attr(tbl.attr)
+        if isinstance(tbl, ast.Name):
+            return f.module.assigns.get(tbl.id)
         return None
 
     def closure(self, roots):
